@@ -553,28 +553,70 @@ func c19Sequence(c *Ctx) *RuleResult {
 		}
 		return true
 	})
-	// (iv) broadcast
-	var snapshot *ast.AssignStmt
-	ast.Inspect(u.Decl.Body, func(n ast.Node) bool {
-		if as, ok := n.(*ast.AssignStmt); ok && len(as.Rhs) == 1 && fieldOf(info, as.Rhs[0]) == waiters && as.Tok == token.DEFINE && inArm("next", as) {
-			snapshot = as
+	// (iv) broadcast. The waiter list is snapshotted, the result stored and the list cleared in one
+	// critical section -- in opSequence itself or in a helper that returns the snapshot -- and every
+	// snapshotted channel is then sent the result.
+	nfsUnits := p.UnitsIn(nfsPkg)
+	var su *FuncUnit // the unit that clears the list
+	var clear ast.Node
+	for _, w := range FieldWrites(nfsUnits, waiters, false) {
+		if w.RHS != nil && isNilIdent(w.RHS) && (w.Unit.Fn == u.Fn || staticReach(p, []ast.Node{u.Decl.Body}, info)[w.Unit.Fn]) {
+			su, clear = w.Unit, w.Node
 		}
-		return true
-	})
+	}
+	var snapshot *ast.AssignStmt // in su: V := slot.currentSequenceWaiters
+	var snapVarInU string         // the name the snapshot has in opSequence
+	var snapPos ast.Node
+	if su != nil {
+		sinfo := su.Info()
+		ast.Inspect(su.Decl.Body, func(n ast.Node) bool {
+			if as, ok := n.(*ast.AssignStmt); ok && len(as.Rhs) == 1 && len(as.Lhs) == 1 && fieldOf(sinfo, as.Rhs[0]) == waiters && as.Tok == token.DEFINE {
+				if su.Fn != u.Fn || inArm("next", as) {
+					snapshot = as
+				}
+			}
+			return true
+		})
+	}
 	construct = constructOf(u, "broadcast")
 	okB := false
 	why := "no snapshot of the waiter list"
 	if snapshot != nil {
 		why = ""
-		e := sharedLockEngine(c)
-		var storeSeq, clear ast.Node
-		for _, w := range FieldWrites([]*FuncUnit{u}, lastSeq, false) {
-			storeSeq = w.Node
-		}
-		for _, w := range FieldWrites([]*FuncUnit{u}, waiters, false) {
-			if w.RHS != nil && isNilIdent(w.RHS) {
-				clear = w.Node
+		if su.Fn == u.Fn {
+			snapVarInU, snapPos = exprStr(snapshot.Lhs[0]), snapshot
+		} else {
+			// the helper must return the snapshot, and opSequence must bind the call's result
+			returned := false
+			ast.Inspect(su.Decl.Body, func(n ast.Node) bool {
+				if ret, ok := n.(*ast.ReturnStmt); ok {
+					for _, res := range ret.Results {
+						if exprStr(res) == exprStr(snapshot.Lhs[0]) {
+							returned = true
+						}
+					}
+				}
+				return true
+			})
+			ast.Inspect(u.Decl.Body, func(n ast.Node) bool {
+				if as, ok := n.(*ast.AssignStmt); ok && len(as.Rhs) == 1 && len(as.Lhs) >= 1 && inArm("next", as) {
+					if call, ok := ast.Unparen(as.Rhs[0]).(*ast.CallExpr); ok && calleeOf(info, call) == su.Fn {
+						snapVarInU, snapPos = exprStr(as.Lhs[0]), as
+					}
+				}
+				return true
+			})
+			if !returned || snapVarInU == "" {
+				why = "the helper that clears the waiter list does not hand the snapshot back to opSequence"
 			}
+		}
+	}
+	if snapshot != nil && why == "" {
+		e := sharedLockEngine(c)
+		sinfo := su.Info()
+		var storeSeq ast.Node
+		for _, w := range FieldWrites([]*FuncUnit{su}, lastSeq, false) {
+			storeSeq = w.Node
 		}
 		if storeSeq == nil || clear == nil {
 			why = "sequence number not stored / waiter list not cleared"
@@ -585,37 +627,67 @@ func c19Sequence(c *Ctx) *RuleResult {
 				if b.Pos() < a.Pos() {
 					a, b = b, a
 				}
-				ast.Inspect(u.Decl.Body, func(m ast.Node) bool {
+				ast.Inspect(su.Decl.Body, func(m ast.Node) bool {
 					call, ok := m.(*ast.CallExpr)
 					if !ok {
 						return true
 					}
-					rel, _ := e.CallEffectOnClass(info, call, "nfsv4.nfs41Program.clientsLock")
-					rel2, _ := e.CallEffectOnClass(info, call, lockClassOfProgram41(e))
+					rel, _ := e.CallEffectOnClass(sinfo, call, "nfsv4.nfs41Program.clientsLock")
+					rel2, _ := e.CallEffectOnClass(sinfo, call, lockClassOfProgram41(e))
 					if (rel || rel2) && a.End() <= call.Pos() && call.End() <= b.Pos() {
 						why = "the lock is released between snapshotting the waiters, storing the result and clearing the list"
 					}
 					return true
 				})
 			}
-			// sends to every waiter
+			// sends to every waiter: `for _, w := range V { w <- result }` or the index form
 			sent := false
+			var loopAnchor ast.Node
 			ast.Inspect(u.Decl.Body, func(m ast.Node) bool {
-				rs, ok := m.(*ast.RangeStmt)
-				if !ok || exprStr(rs.X) != exprStr(snapshot.Lhs[0]) {
-					return true
-				}
-				ast.Inspect(rs.Body, func(k ast.Node) bool {
-					if ss, ok := k.(*ast.SendStmt); ok && rs.Value != nil && exprStr(ss.Chan) == exprStr(rs.Value) {
-						sent = true
+				switch rs := m.(type) {
+				case *ast.RangeStmt:
+					if exprStr(rs.X) != snapVarInU {
+						return true
 					}
-					return true
-				})
-				if !g.Dominates(storeSeq, rs.X) {
-					why = "waiters are notified before the result is stored"
+					ast.Inspect(rs.Body, func(k ast.Node) bool {
+						if ss, ok := k.(*ast.SendStmt); ok && rs.Value != nil && exprStr(ss.Chan) == exprStr(rs.Value) {
+							sent = true
+						}
+						return true
+					})
+					loopAnchor = rs.X
+				case *ast.ForStmt:
+					be, ok := ast.Unparen(rs.Cond).(*ast.BinaryExpr)
+					if rs.Cond == nil || !ok || be.Op != token.LSS || exprStr(be.Y) != "len("+snapVarInU+")" {
+						return true
+					}
+					idx := exprStr(be.X)
+					startsAtZero := false
+					if as, ok := rs.Init.(*ast.AssignStmt); ok && len(as.Lhs) == 1 && exprStr(as.Lhs[0]) == idx && exprStr(as.Rhs[0]) == "0" {
+						startsAtZero = true
+					}
+					stepsByOne := false
+					if inc, ok := rs.Post.(*ast.IncDecStmt); ok && inc.Tok == token.INC && exprStr(inc.X) == idx {
+						stepsByOne = true
+					}
+					ast.Inspect(rs.Body, func(k ast.Node) bool {
+						if ss, ok := k.(*ast.SendStmt); ok && exprStr(ss.Chan) == snapVarInU+"["+idx+"]" && startsAtZero && stepsByOne {
+							sent = true
+						}
+						return true
+					})
+					loopAnchor = rs.Cond
 				}
 				return true
 			})
+			// the result is stored (in opSequence, or by the helper call) before anyone is notified
+			storedAt := storeSeq
+			if su.Fn != u.Fn {
+				storedAt = snapPos
+			}
+			if loopAnchor != nil && !g.Dominates(g.Anchor(storedAt), g.Anchor(loopAnchor)) {
+				why = "waiters are notified before the result is stored"
+			}
 			if !sent && why == "" {
 				why = "the result is not sent to every registered waiter"
 			}
@@ -623,7 +695,7 @@ func c19Sequence(c *Ctx) *RuleResult {
 		okB = why == ""
 	}
 	if okB {
-		r.ok(construct, posOf(p, snapshot), "snapshot+store+clear in one critical section, then send to every waiter")
+		r.ok(construct, posOf(p, snapPos), "snapshot+store+clear in one critical section, then send to every waiter")
 	} else {
 		r.bad(c.Prop, construct, posOf(p, nextArm), "in-flight duplicates are not completed with the original's result: "+why)
 	}
@@ -646,8 +718,8 @@ func lockClassOfProgram41(e *LockEngine) string {
 
 func init() {
 	register(&PropertySpec{
-		ID:    "C19",
-		Level: "other",
+		ID:          "C19",
+		Level:       "other",
 		Explanation: "Structural necessary conditions of 'retransmitted requests execute once and get the same reply', on all paths: every successful start of an owner transaction is completed exactly once and its failure edge is side-effect free; startTransaction returns the stored reply for an equal sequence number and rejects before touching state; sequence number and cached reply are always recorded together (4.0 owners, CREATE_SESSION, SEQUENCE slots); the SEQUENCE state machine executes only in the next-sequence arm, replays only after the false-retry shape tests, and in-flight duplicates register their channel before blocking and are broadcast the result. Byte equality of replies over all duplication histories is not decided.",
 		Assumptions: []string{"the XDR layer delivers what the program returns"},
 		Rules:       []RuleFunc{c19TxLinear, c19StartShape, c19Together, c19Sequence, c19WakeAll, c19ReplayStateID},
